@@ -1250,3 +1250,13 @@ GROUPS["thorough:scope-programs"] = _th.bounded_from_replay("bounded/scope-progr
 from suites import progenum as _pg
 GROUPS["thorough:enum-expressions-in-scopes"] = _th.only_thorough(_pg.g_f8)
 GROUPS["thorough:enum-binding-forms"] = _th.only_thorough(_pg.g_f4)
+
+# defaults and decorators of a def are evaluated in the DEFINING scope (a scoping obligation:
+# the shared C07/C11 group runs the real constructor and get_result with two distinct namespaces)
+def _functiondef(R, tier):
+    from suites import c07
+    c07.g_functiondef(R, tier)
+
+
+GROUPS["functiondef_scopes"] = _functiondef
+REPLAY.update({k: v for k, v in __import__("suites.c07", fromlist=["REPLAY"]).REPLAY.items() if k not in REPLAY})
